@@ -174,3 +174,44 @@ Proof.
 Qed.
 
 End IndexRead.
+
+(* ---------- C03: the item count of an index ---------- *)
+Definition indexed (ks : keyschema) (defs : fmap str) (kv : str * item) : bool :=
+  match index_key_of ks defs (snd kv) with Some _ => true | None => false end.
+
+Lemma filter_keys_ssorted {V} (P : str * V -> bool) (m : fmap V) : wf m -> ssorted (keys (filter P m)).
+Proof.
+  unfold wf, keys. induction m as [|[k v] m IH]; intros H; [constructor|].
+  change (map fst ((k, v) :: m)) with (k :: map fst m) in H.
+  apply ssorted_cons_inv in H as [Hs Hall]. cbn [filter]. destruct (P (k, v)); [|exact (IH Hs)].
+  change (map fst ((k, v) :: filter P m)) with (k :: map fst (filter P m)).
+  constructor; [exact (IH Hs)|]. apply Forall_forall. intros x Hx. rewrite Forall_forall in Hall. apply Hall.
+  apply in_map_iff in Hx as [[k' v'] [<- Hin]]. apply filter_In in Hin as [Hin _]. now apply (in_map fst) in Hin.
+Qed.
+
+Lemma In_keys_filter {V} (P : str * V -> bool) (m : fmap V) k : wf m ->
+  (In k (keys (filter P m)) <-> exists v, lookup k m = Some v /\ P (k, v) = true).
+Proof.
+  intros Hw. unfold keys. rewrite in_map_iff. split.
+  - intros [[k' v] [E Hin]]. cbn in E. subst k'. apply filter_In in Hin as [Hin HP]. exists v. split; auto. now apply In_lookup.
+  - intros [v [L HP]]. exists (k, v). split; auto. apply filter_In. split; auto. now apply lookup_In.
+Qed.
+
+(* the number of entries of an index (what DescribeTable reports for it) is the number of stored items that have the
+   index's key attributes *)
+Theorem index_count_is_indexed_items defs data ix :
+  wf data -> IInv defs data ix -> ix_count ix = List.length (filter (indexed (ix_ks ix) defs) data).
+Proof.
+  intros Hw H. unfold ix_count. rewrite (ii_sorted _ _ _ H).
+  rewrite (Permutation_length (sort_strings_perm _)), map_length.
+  assert (keys (ix_refs ix) = keys (filter (indexed (ix_ks ix) defs) data)) as E.
+  { apply ssorted_ext; [apply (ii_wf _ _ _ H)|now apply filter_keys_ssorted|].
+    intros k. rewrite (In_keys_filter _ _ _ Hw). split.
+    - intros Hin. apply In_keys_lookup in Hin as [ik L]. apply (ii_refs _ _ _ H) in L as [it [L K]].
+      exists it. split; auto. unfold indexed. cbn. now rewrite K.
+    - intros [it [L HP]]. unfold indexed in HP. cbn in HP.
+      destruct (index_key_of (ix_ks ix) defs it) as [ik|] eqn:K; [|discriminate].
+      assert (lookup k (ix_refs ix) = Some ik) as R by (apply (ii_refs _ _ _ H); eauto).
+      apply lookup_In in R. now apply (in_map fst) in R. }
+  unfold keys in E. rewrite <- (map_length fst (ix_refs ix)), E, map_length. reflexivity.
+Qed.
